@@ -35,6 +35,15 @@ def run_ho(rep, pid, thorough):
     pp.run(rep, pid, cfgs, modes='ctl-unsafe,ctl-safe', module='HOGen', replay_cmd='replay-multi', class_props=HO_CLASS_PROPS, prefix='multi.')
 
 
+SINGLE_CLASS_PROPS = dict(CLASS_PROPS, **{'values': ['C04', 'C07'], 'torn': ['C03', 'C14'], 'sub': ['C12'], 'closed': ['C06']})
+
+
+def run_single(rep, pid, thorough):
+    """single-source operators with a HIGHER-ORDER output (GroupBy, GroupByI): same machinery, one source."""
+    cfgs = [cfg('multi-groupby', MaxSteps=5 if thorough else 4, MaxPerSrc=3, Cuts='TRUE', InstSetName='"one"')]
+    pp.run(rep, pid, cfgs, modes='ctl-unsafe,ctl-safe', module='MultiGen', replay_cmd='replay-multi', class_props=SINGLE_CLASS_PROPS, prefix='multi.')
+
+
 REUSE_PROPS = {'reuse-values': ['C12'], 'reuse-torn': ['C12'], 'reuse-sub': ['C12'], 'reuse-closed': ['C12'], 'reuse-late': ['C12']}
 
 
@@ -57,5 +66,6 @@ def run(rep, pid, thorough):
 
 def replay_case(pid, path):
     import json
-    ho = json.load(open(path))['replay'].get('module') == 'HOGen'
-    return pp.replay_case(pid, path, replay_cmd='replay-multi', class_props=HO_CLASS_PROPS if ho else CLASS_PROPS)
+    rp = json.load(open(path))['replay']
+    props = HO_CLASS_PROPS if rp.get('module') == 'HOGen' else SINGLE_CLASS_PROPS if ((rp.get('case') or {}).get('m') or {}).get('k') == 1 else CLASS_PROPS
+    return pp.replay_case(pid, path, replay_cmd='replay-multi', class_props=props)
